@@ -1,4 +1,5 @@
 """C15 — saved read assignments round-trip losslessly and can be reused."""
+import collections
 import io
 import os
 import shutil
@@ -875,7 +876,25 @@ def multimap_dataset(seed):
     for i, r in enumerate(prim[8:12]):
         o = prim[(i + 20) % len(prim)]
         ds.add_read(r["name"], o["chr"], o["start0"], o["cigar"], flag=256, mapq=0, seq=o["seq"])
+    # the second sequence is named as an alternate locus of the first (GRCh38: chr1 / chr1_KI270706v1_random, chrA / chrA_alt):
+    # every file name pattern `<save>_<chr>_*` of the first sequence also matches the files of the second (seed C15_a4)
+    ds.chroms = collections.OrderedDict((ALT_NAME if n == "chr2" else n, s_) for n, s_ in ds.chroms.items())
+    for g in ds.genes:
+        if g["chr"] == "chr2":
+            g["chr"] = ALT_NAME
+    for r in ds.reads:
+        if r["chr"] == "chr2":
+            r["chr"] = ALT_NAME
     return ds
+
+
+ALT_NAME = "chr1_alt"
+DUMP_NAMES = {"chr1", "chr2", ALT_NAME, "chr9"}
+
+
+def is_dump_tail(tail):
+    """<prefix>_<tail> is the dump of a chromosome (names of the data sets of this module; otherwise: no '_' in the name)"""
+    return tail in DUMP_NAMES or ("_" not in tail and tail != "lock")
 
 
 def is_saved_data_file(fn):
@@ -886,7 +905,7 @@ def is_saved_data_file(fn):
     tail = fn[len("S.save_"):]
     if tail == "info" or tail.startswith("multimappers_"):
         return True
-    return "_" not in tail and tail != "lock"
+    return is_dump_tail(tail)
 
 
 def snapshot_saved(aux):
@@ -996,7 +1015,7 @@ def pipeline_files_correspondence(ctx):
                     fnr, conv = readers()["dec_info"]
                     cases.append(("dec_info", {"b": data.hex()}, do_read(fnr, data, conv)))
                     ctx.count("pipeline_file:info")
-                elif "_" not in tail and tail != "lock":
+                elif is_dump_tail(tail):
                     if len(data) > 3_000_000:
                         ctx.count("pipeline_file:skipped_large")
                         continue
